@@ -892,3 +892,78 @@ Proof.
       destruct (delay_after_send_iff m) as (_ & Hnone & _). rewrite (proj2 Hnone Hnd). cbn [odur]. lia.
     + destruct (Hne Hpart) as [-> _]. auto.
 Qed.
+
+(* ---------- what has been written before is only ever appended to ---------- *)
+(* A port whose output so far is [out] followed by what [p] has. *)
+Definition out_prefixed_w (out : list N) (w : writer) : writer :=
+  {| w_out := out ++ w_out w; w_sched := w_sched w |}.
+Definition out_prefixed (out : list N) (p : port) : port :=
+  {| pt_in := pt_in p; pt_out := out_prefixed_w out (pt_out p) |}.
+
+Lemma writer_write_prefixed out w buf :
+  writer_write (out_prefixed_w out w) buf
+  = (fst (writer_write w buf), out_prefixed_w out (snd (writer_write w buf))).
+Proof.
+  unfold writer_write, out_prefixed_w. cbn [w_out w_sched].
+  destruct (w_sched w) as [|[n| | |] t]; cbn [fst snd w_out w_sched]; rewrite ?app_assoc; reflexivity.
+Qed.
+
+Lemma write_all_prefixed out : forall fuel w buf,
+  write_all fuel (out_prefixed_w out w) buf
+  = match write_all fuel w buf with
+    | None => None
+    | Some (r, w') => Some (r, out_prefixed_w out w')
+    end.
+Proof.
+  induction fuel as [|fuel IH]; intros w buf; destruct buf as [|b buf]; cbn [write_all]; try reflexivity.
+  rewrite writer_write_prefixed.
+  destruct (writer_write w (b :: buf)) as [[k| |] w'] eqn:E; cbn [fst snd].
+  - destruct k as [|k]; [reflexivity|]. apply IH.
+  - apply IH.
+  - reflexivity.
+Qed.
+
+Lemma frame_write_prefixed out f w :
+  frame_write f (out_prefixed_w out w)
+  = match frame_write f w with
+    | None => None
+    | Some (r, w') => Some (r, out_prefixed_w out w')
+    end.
+Proof.
+  unfold frame_write. replace (write_fuel (out_prefixed_w out w) (encode_nl f)) with (write_fuel w (encode_nl f)) by reflexivity.
+  rewrite write_all_prefixed.
+  destruct (write_all (write_fuel w (encode_nl f)) w (encode_nl f)) as [[[u|u] w']|]; reflexivity.
+Qed.
+
+Lemma delivered_prefixed out w w' :
+  (length (w_out w) <= length (w_out w'))%nat ->
+  delivered (out_prefixed_w out w) (out_prefixed_w out w') = delivered w w'.
+Proof.
+  intros _. unfold delivered, out_prefixed_w. cbn [w_out].
+  rewrite app_length, skipn_app.
+  rewrite (skipn_all2 out) by lia. cbn [app].
+  f_equal. lia.
+Qed.
+
+(* An exchange on a port that already carries output [out] is the exchange on the port without it, with [out] put back in
+   front: the bus only ever appends.  (So a long conversation may be evaluated exchange by exchange, taking the output
+   away after each.) *)
+Lemma serial_process_prefixed out m p :
+  serial_process m (out_prefixed out p)
+  = match serial_process m p with
+    | None => None
+    | Some (res, p', evs) => Some (res, out_prefixed out p', evs)
+    end.
+Proof.
+  unfold serial_process. cbn [pt_out pt_in out_prefixed].
+  rewrite frame_write_prefixed.
+  destruct (frame_write (frame_of_msg m) (pt_out p)) as [[[u|e] w']|] eqn:Ew; [| |reflexivity].
+  - pose proof (C15_write_cases _ _ _ _ Ew) as [_ [[_ Ho]|(_ & _ & k & _ & Ho)]];
+      (assert (Hlen : (length (w_out (pt_out p)) <= length (w_out w'))%nat) by (rewrite Ho, app_length; lia));
+      rewrite (delivered_prefixed out _ _ Hlen);
+      (destruct (response_expected m); [|reflexivity]);
+      (destruct (frame_read (pt_in p)) as [[[f|e] r']|]; reflexivity).
+  - pose proof (C15_write_cases _ _ _ _ Ew) as [_ [[_ Ho]|(_ & _ & k & _ & Ho)]];
+      (assert (Hlen : (length (w_out (pt_out p)) <= length (w_out w'))%nat) by (rewrite Ho, app_length; lia));
+      rewrite (delivered_prefixed out _ _ Hlen); reflexivity.
+Qed.
